@@ -57,6 +57,18 @@ def lookups_and_verdicts(ck, f):
         for n, (bi, t) in enumerate(g.calls(r"iter::Iterator::(all|any)$")):
             r = rules.enforcement(g, bi, extra_fail=("bool", 0 if t["f"]["name"] == "all" else 1))
             ck.ob("ENF", g.path, "iterator-%s#%d" % (t["f"]["name"], n), rules.enforced_ok(r), r["status"] + ": " + r["detail"], g.loc(bi))
+    # every supplied signature is examined: the signature maps are iterated whole
+    TRUNC = r"iter::Iterator::(take|skip|step_by|take_while|skip_while|nth|last|find|find_map|position)$|slice::<impl \[T\]>::(split_at|split_first|split_last|first|last|chunks|get)$|" \
+            r"vec::Vec::<.*>::(truncate|drain|split_off)$|BTreeMap::<.*>::(first_key_value|last_key_value|range|pop_first|pop_last)$|iter::Iterator::next$"
+    for g in bodies:
+        for (bi, t) in g.calls(TRUNC):
+            if t["f"]["name"] == "next" and bi in g.reach_from(g.succ(bi)):
+                continue        # the `for` loop's own next(): runs until the iterator is exhausted
+            o = g.origins(t["args"][0], deep=True)
+            if ("arg", 2) in o or ("arg", 3) in o or any(a[0] == "capture" for a in o):
+                ck.ob("COV", g.path, "signatures-iterated-whole@%s" % t["f"]["name"], False,
+                      "the supplied signatures/keys are cut or searched with %s: signatures outside the selected part are not verified" % t["f"]["name"], g.loc(bi))
+    ck.ob("COV", f.path, "signatures-iterated-whole", True, "%d bodies scanned for truncating or selecting combinators on the signature maps" % len(bodies), f.loc(), nontrivial=False)
     ck.floor("ENF", "key lookups in verify_data_signature", n_lookup, 2)
     ck.floor("ENF", "signature verifications in verify_data_signature", n_verify, 1)
 
